@@ -105,6 +105,10 @@ mod sp {
         pub replies: Vec<Frame>,
         pub handled: bool,
         pub stop: bool,
+        /// after sending the replies: do not read from the stream for this long (back-pressure on the client)
+        pub pause_ms: u64,
+        /// sent after the pause
+        pub late_replies: Vec<Frame>,
     }
 
     pub struct PeerCfg {
@@ -192,6 +196,14 @@ mod sp {
             let act = rule(&frame, &log);
             for r in act.replies {
                 let _ = transport.send(r).await;
+            }
+            if act.pause_ms > 0 {
+                tokio::time::sleep(std::time::Duration::from_millis(act.pause_ms)).await;
+            }
+            for r in act.late_replies {
+                if transport.send(r).await.is_err() {
+                    log.push("send-failed".into());
+                }
             }
             if act.stop {
                 break;
@@ -2088,6 +2100,454 @@ fn main() {
                                 }
                             }
                             format!("{{\"client\":\"{}\",\"second_mode_delivery_left_unsettled\":{},\"first_mode_delivery_settled\":{},\"log\":{}}}", client.unwrap_or_else(|e| e), !one_settled, zero_settled, sp::json_list(&log))
+                        }
+                        // cancel_recv_auto_accept: a client-side receiver with auto-accept (the default) over a connection whose
+                        //   outgoing path is back-pressured (tiny duplex, channel buffers of 1, a peer that stops reading for a
+                        //   while after sending 10 deliveries). The application polls recv() under a short time-out -- i.e. it
+                        //   drops pending recv futures -- and later keeps receiving. Every delivery sent must be returned by some
+                        //   recv() exactly once.
+                        "cancel_recv_auto_accept" => {
+                            use fe2o3_amqp_types::definitions::Handle;
+                            use fe2o3_amqp_types::performatives::Transfer;
+                            use fe2o3_amqp_types::primitives::Binary;
+                            let _ = (client_io, peer_io);
+                            let (client_io, peer_io) = tokio::io::duplex(48);
+                            const N: u32 = 10;
+                            fn xfer(ch: u16, handle: Handle, id: u32) -> Frame {
+                                let performative = Transfer { handle, delivery_id: Some(id), delivery_tag: Some(Binary::from(id.to_be_bytes().to_vec())), message_format: Some(0), settled: Some(false), more: false, rcv_settle_mode: None, state: None, resume: false, aborted: false, batchable: false };
+                                Frame::new(ch, FrameBody::Transfer { performative, payload: Bytes::from(vec![0x00, 0x53, 0x77, 0x52, id as u8]) })
+                            }
+                            let mut sent = false;
+                            let peer = tokio::spawn(sp::run(peer_io, sp::PeerCfg::default(), move |f: &Frame, _log: &[String]| {
+                                let mut act = sp::Act::default();
+                                if let FrameBody::Flow(fl) = &f.body {
+                                    if let (Some(h), false) = (fl.handle.clone(), sent) {
+                                        if fl.link_credit.unwrap_or(0) >= N {
+                                            sent = true;
+                                            for id in 0..N {
+                                                act.replies.push(xfer(f.channel, h.clone(), id));
+                                            }
+                                            act.pause_ms = 1500;
+                                        }
+                                    }
+                                }
+                                act
+                            }));
+                            let client = tokio::time::timeout(Duration::from_secs(12), async {
+                                let mut conn = fe2o3_amqp::Connection::builder().container_id("client").buffer_size(1).open_with_stream(client_io).await.map_err(|_| "open_failed".to_string())?;
+                                let mut session = fe2o3_amqp::Session::builder().buffer_size(1).begin(&mut conn).await.map_err(|_| "begin_failed".to_string())?;
+                                let mut receiver = fe2o3_amqp::Receiver::builder().name("r-1").source("q1").receiver_settle_mode(fe2o3_amqp_types::definitions::ReceiverSettleMode::Second).auto_accept(true).credit_mode(fe2o3_amqp::link::receiver::CreditMode::Manual).attach(&mut session).await.map_err(|_| "attach_failed".to_string())?;
+                                receiver.set_credit(N).await.map_err(|_| "set_credit_failed".to_string())?;
+                                // let all deliveries arrive; by then the peer has stopped reading
+                                tokio::time::sleep(Duration::from_millis(300)).await;
+                                let mut got: Vec<u32> = Vec::new();
+                                let mut cancelled = 0u32;
+                                // phase 1: impatient polling while the peer does not read
+                                let t0 = std::time::Instant::now();
+                                while t0.elapsed() < Duration::from_millis(800) {
+                                    match tokio::time::timeout(Duration::from_millis(40), receiver.recv::<u32>()).await {
+                                        Ok(Ok(d)) => got.push(*d.body()),
+                                        Ok(Err(e)) => {
+                                            if std::env::var("SCN_DEBUG").is_ok() {
+                                                eprintln!("phase1 recv error: {:?}", e);
+                                            }
+                                            break;
+                                        }
+                                        Err(_) => cancelled += 1,
+                                    }
+                                    if std::env::var("SCN_DEBUG").is_ok() {
+                                        eprintln!("phase1 t={}ms got={:?} cancelled={}", t0.elapsed().as_millis(), got, cancelled);
+                                    }
+                                }
+                                // phase 2: patient
+                                loop {
+                                    match tokio::time::timeout(Duration::from_millis(1500), receiver.recv::<u32>()).await {
+                                        Ok(Ok(d)) => got.push(*d.body()),
+                                        _ => break,
+                                    }
+                                    if got.len() as u32 >= N {
+                                        break;
+                                    }
+                                }
+                                Ok::<_, String>((got, cancelled))
+                            })
+                            .await
+                            .unwrap_or(Err("hang".to_string()));
+                            if std::env::var("SCN_DEBUG").is_ok() {
+                                let log = tokio::time::timeout(Duration::from_secs(3), peer).await.ok().and_then(|r| r.ok()).unwrap_or_default();
+                                eprintln!("peer log: {:?}", log);
+                            } else {
+                                peer.abort();
+                            }
+                            match client {
+                                Ok((got, cancelled)) => {
+                                    let mut dup = 0;
+                                    let mut seen = std::collections::BTreeSet::new();
+                                    for g in &got {
+                                        if !seen.insert(*g) {
+                                            dup += 1;
+                                        }
+                                    }
+                                    let lost = N as usize - seen.len();
+                                    format!("{{\"client\":\"ok\",\"sent\":{},\"received\":{},\"lost\":{},\"duplicated\":{},\"recv_futures_dropped\":{},\"in_order\":{}}}", N, got.len(), lost, dup, cancelled, got.windows(2).all(|w| w[0] < w[1]))
+                                }
+                                Err(e) => format!("{{\"client\":\"{}\",\"lost\":0}}", e),
+                            }
+                        }
+                        // cut_after_our_close: the client closes; the peer hangs up without answering the close
+                        "cut_after_our_close" => {
+                            let peer = tokio::spawn(sp::run(peer_io, sp::PeerCfg::default(), |f: &Frame, _log: &[String]| {
+                                let mut act = sp::Act::default();
+                                if matches!(&f.body, FrameBody::Close(_)) {
+                                    act.handled = true;
+                                    act.stop = true;
+                                }
+                                act
+                            }));
+                            let r = tokio::time::timeout(Duration::from_secs(5), async {
+                                let mut conn = match fe2o3_amqp::Connection::builder().container_id("client").open_with_stream(client_io).await {
+                                    Ok(c) => c,
+                                    Err(_) => return "open_failed",
+                                };
+                                match conn.close().await {
+                                    Ok(()) => "ok",
+                                    Err(fe2o3_amqp::connection::Error::TransportError(_)) => "transport_error",
+                                    Err(_) => "other_error",
+                                }
+                            })
+                            .await
+                            .unwrap_or("hang");
+                            let _ = tokio::time::timeout(Duration::from_secs(1), peer).await;
+                            format!("{{\"close_result\":\"{}\"}}", r)
+                        }
+                        // discarding_ignores: the peer sends a begin naming a channel the client never began (the client closes
+                        //   with amqp:not-found and is DISCARDING), then two session flows, and answers the client's close only
+                        //   300 ms later. The client must sit through the flows and wait for the peer's close.
+                        "discarding_ignores" => {
+                            use fe2o3_amqp_types::performatives::{Begin, Close, Flow};
+                            let cfg = sp::PeerCfg::default();
+                            let peer = tokio::spawn(sp::run(peer_io, sp::PeerCfg::default(), move |f: &Frame, _log: &[String]| {
+                                let mut act = sp::Act::default();
+                                match &f.body {
+                                    FrameBody::Open(_) => {
+                                        act.replies = sp::default_answers(f, &cfg).0;
+                                        act.replies.push(Frame::new(0u16, FrameBody::Begin(Begin { remote_channel: Some(7), next_outgoing_id: 0, incoming_window: 10, outgoing_window: 10, handle_max: Default::default(), offered_capabilities: None, desired_capabilities: None, properties: None })));
+                                        for _ in 0..2 {
+                                            act.replies.push(Frame::new(0u16, FrameBody::Flow(Flow { next_incoming_id: Some(0), incoming_window: 10, next_outgoing_id: 0, outgoing_window: 10, handle: None, delivery_count: None, link_credit: None, available: None, drain: false, echo: false, properties: None })));
+                                        }
+                                        act.handled = true;
+                                    }
+                                    FrameBody::Close(_) => {
+                                        act.handled = true;
+                                        act.pause_ms = 300;
+                                        act.late_replies.push(Frame::new(0u16, FrameBody::Close(Close { error: None })));
+                                        act.stop = true;
+                                    }
+                                    _ => {}
+                                }
+                                act
+                            }));
+                            let t0 = std::time::Instant::now();
+                            let (handle, took) = tokio::time::timeout(Duration::from_secs(5), async {
+                                let mut conn = match fe2o3_amqp::Connection::builder().container_id("client").open_with_stream(client_io).await {
+                                    Ok(c) => c,
+                                    Err(_) => return ("open_failed", 0u128),
+                                };
+                                let r = match conn.on_close().await {
+                                    Ok(()) => "ok",
+                                    Err(fe2o3_amqp::connection::Error::NotFound(_)) => "not_found",
+                                    Err(fe2o3_amqp::connection::Error::IllegalState) => "illegal_state",
+                                    Err(_) => "other_error",
+                                };
+                                (r, t0.elapsed().as_millis())
+                            })
+                            .await
+                            .unwrap_or(("hang", 0));
+                            let log = tokio::time::timeout(Duration::from_secs(2), peer).await.ok().and_then(|r| r.ok()).unwrap_or_default();
+                            let saw_close_err = log.iter().any(|l| l == "close:err");
+                            let waited = saw_close_err && !log.iter().any(|l| l == "send-failed") && took >= 250;
+                            format!("{{\"handle\":\"{}\",\"waited_for_peer_close\":{},\"took_ms\":{},\"log\":{}}}", handle, waited, took, sp::json_list(&log))
+                        }
+                        // peer_detaches_receiver <with_error>: the peer closes a link whose local end is a Receiver (with / without
+                        //   an error) while the application is in recv(). recv must return the failure AND the closing detach must
+                        //   have been answered while the Receiver handle is still alive (nothing may be left to Drop).
+                        "peer_detaches_receiver" => {
+                            use fe2o3_amqp_types::performatives::Detach;
+                            let with_error = arg.first().copied().unwrap_or(0) == 1;
+                            let mut sent = false;
+                            let peer = tokio::spawn(sp::run(peer_io, sp::PeerCfg::default(), move |f: &Frame, _log: &[String]| {
+                                let mut act = sp::Act::default();
+                                if let FrameBody::Flow(fl) = &f.body {
+                                    if let (Some(h), false) = (fl.handle.clone(), sent) {
+                                        sent = true;
+                                        let error = if with_error { Some(defs::Error::new(defs::LinkError::DetachForced, Some("node deleted".to_string()), None)) } else { None };
+                                        act.replies.push(Frame::new(f.channel, FrameBody::Detach(Detach { handle: h, closed: true, error })));
+                                    }
+                                }
+                                // the client's answering detach needs no answer
+                                if matches!(&f.body, FrameBody::Detach(_)) {
+                                    act.handled = true;
+                                }
+                                act
+                            }));
+                            let client = tokio::time::timeout(Duration::from_secs(6), async {
+                                let mut conn = fe2o3_amqp::Connection::builder().container_id("client").open_with_stream(client_io).await.map_err(|_| "open_failed")?;
+                                let mut session = fe2o3_amqp::Session::begin(&mut conn).await.map_err(|_| "begin_failed")?;
+                                let mut receiver = fe2o3_amqp::Receiver::attach(&mut session, "r-1", "q1").await.map_err(|_| "attach_failed")?;
+                                let r = tokio::time::timeout(Duration::from_secs(2), receiver.recv::<String>()).await;
+                                let res = match &r {
+                                    Err(_) => "recv_hang",
+                                    Ok(Ok(_)) => "recv_ok",
+                                    Ok(Err(_)) => "recv_err",
+                                };
+                                tokio::time::sleep(Duration::from_millis(400)).await;
+                                // nothing may be left to the Drop impl
+                                std::mem::forget(receiver);
+                                let _ = tokio::time::timeout(Duration::from_secs(1), session.end()).await;
+                                let _ = tokio::time::timeout(Duration::from_secs(1), conn.close()).await;
+                                Ok::<_, &'static str>(res)
+                            })
+                            .await
+                            .unwrap_or(Err("hang"));
+                            let log = tokio::time::timeout(Duration::from_secs(2), peer).await.ok().and_then(|r| r.ok()).unwrap_or_default();
+                            let i_end = log.iter().position(|l| l.starts_with("end@") || l.starts_with("close")).unwrap_or(log.len());
+                            let answered = log[..i_end].iter().any(|l| l.starts_with("detach:") && l.contains(":true:"));
+                            format!("{{\"client\":\"{}\",\"answered_while_handle_alive\":{},\"log\":{}}}", client.unwrap_or_else(|e| e), answered, sp::json_list(&log))
+                        }
+                        // settle_second_progress: as settle_second with 3 deliveries, but the receiver first reports progress
+                        //   (`received`, not settled) for the range 0..=2 and only then the terminal outcome of each delivery.
+                        "settle_second_progress" => {
+                            use fe2o3_amqp_types::definitions::{ReceiverSettleMode, Role};
+                            use fe2o3_amqp_types::messaging::{Accepted, DeliveryState, Received};
+                            use fe2o3_amqp_types::performatives::Disposition;
+                            let n = 3u32;
+                            let mut seen = 0u32;
+                            let peer = tokio::spawn(sp::run(peer_io, sp::PeerCfg::default(), move |f: &Frame, _log: &[String]| {
+                                let mut act = sp::Act::default();
+                                if let FrameBody::Transfer { .. } = &f.body {
+                                    seen += 1;
+                                    if seen == n {
+                                        let progress = Disposition { role: Role::Receiver, first: 0, last: Some(n - 1), settled: false, state: Some(DeliveryState::Received(Received { section_number: 0, section_offset: 0 })), batchable: false };
+                                        act.replies.push(Frame::new(f.channel, FrameBody::Disposition(progress)));
+                                        for id in 0..n {
+                                            let d = Disposition { role: Role::Receiver, first: id, last: None, settled: false, state: Some(DeliveryState::Accepted(Accepted {})), batchable: false };
+                                            act.replies.push(Frame::new(f.channel, FrameBody::Disposition(d)));
+                                        }
+                                    }
+                                }
+                                act
+                            }));
+                            let client = tokio::time::timeout(Duration::from_secs(8), async {
+                                let mut conn = fe2o3_amqp::Connection::builder().container_id("client").open_with_stream(client_io).await.map_err(|_| "open_failed".to_string())?;
+                                let mut session = fe2o3_amqp::Session::begin(&mut conn).await.map_err(|_| "begin_failed".to_string())?;
+                                let mut sender = fe2o3_amqp::Sender::builder().name("s-1").target("q1").receiver_settle_mode(ReceiverSettleMode::Second).attach(&mut session).await.map_err(|_| "attach_failed".to_string())?;
+                                let mut futs = Vec::new();
+                                for k in 0..n {
+                                    futs.push(sender.send_batchable(format!("m{}", k)).await.map_err(|_| "send_failed".to_string())?);
+                                }
+                                let mut resolved = 0;
+                                for fut in futs {
+                                    if let Ok(Ok(o)) = tokio::time::timeout(Duration::from_secs(2), fut).await {
+                                        if o.is_accepted() {
+                                            resolved += 1;
+                                        }
+                                    }
+                                }
+                                tokio::time::sleep(Duration::from_millis(300)).await;
+                                let _ = tokio::time::timeout(Duration::from_secs(1), sender.close()).await;
+                                let _ = tokio::time::timeout(Duration::from_secs(1), session.end()).await;
+                                let _ = tokio::time::timeout(Duration::from_secs(1), conn.close()).await;
+                                Ok::<_, String>(resolved)
+                            })
+                            .await
+                            .unwrap_or(Err("hang".to_string()));
+                            let log = tokio::time::timeout(Duration::from_secs(2), peer).await.ok().and_then(|r| r.ok()).unwrap_or_default();
+                            let mut settled = vec![false; n as usize];
+                            for l in log.iter().filter(|l| l.starts_with("disposition:Sender:") && l.contains(":settledtrue:Accepted")) {
+                                let range = l.split(':').nth(2).unwrap_or("");
+                                let mut it = range.split('-');
+                                let first = it.next().and_then(|t| t.parse::<u32>().ok());
+                                let last = it.next().and_then(|t| t.trim_start_matches("Some(").trim_end_matches(')').parse::<u32>().ok()).or(first);
+                                if let (Some(a), Some(b)) = (first, last) {
+                                    for id in a..=b.min(n - 1) {
+                                        settled[id as usize] = true;
+                                    }
+                                }
+                            }
+                            let (res, c) = match &client { Ok(a) => (*a as i64, "ok".to_string()), Err(e) => (-1, e.clone()) };
+                            format!("{{\"client\":\"{}\",\"resolved\":{},\"n\":{},\"all_settled_by_sender\":{},\"log\":{}}}", c, res, n, settled.iter().all(|x| *x), sp::json_list(&log))
+                        }
+                        // txn_settled_posts: real controller against the crate's own listener: under one transaction the posts
+                        //   m1 (unsettled), m2 (pre-settled), m3 (unsettled), m4 (pre-settled); nothing is visible before the
+                        //   commit; after it the listener's application receives m1..m4 in order.
+                        "txn_settled_posts" => {
+                            use fe2o3_amqp::acceptor::{ConnectionAcceptor, LinkAcceptor, LinkEndpoint, SessionAcceptor};
+                            use fe2o3_amqp::transaction::{coordinator::ControlLinkAcceptor, Controller, Transaction, TransactionDischarge, TransactionPosting};
+                            let _ = peer_io;
+                            let (client_io, server_io) = tokio::io::duplex(64 * 1024);
+                            let (seen_tx, mut seen) = tokio::sync::mpsc::unbounded_channel::<String>();
+                            let listener = tokio::spawn(async move {
+                                let acceptor = ConnectionAcceptor::builder().container_id("listener").build();
+                                let mut connection = match acceptor.accept(server_io).await {
+                                    Ok(c) => c,
+                                    Err(_) => return,
+                                };
+                                let session_acceptor = SessionAcceptor::builder().control_link_acceptor(ControlLinkAcceptor::default()).build();
+                                let mut session = match session_acceptor.accept(&mut connection).await {
+                                    Ok(s) => s,
+                                    Err(_) => return,
+                                };
+                                let link_acceptor = LinkAcceptor::builder().build();
+                                let mut receiver = match link_acceptor.accept(&mut session).await {
+                                    Ok(LinkEndpoint::Receiver(r)) => r,
+                                    _ => return,
+                                };
+                                while let Ok(delivery) = receiver.recv::<String>().await {
+                                    let _ = seen_tx.send(delivery.body().clone());
+                                    if receiver.accept(&delivery).await.is_err() {
+                                        break;
+                                    }
+                                }
+                                drop(seen_tx);
+                                tokio::time::sleep(Duration::from_secs(2)).await;
+                                drop(receiver);
+                                drop(session);
+                                drop(connection);
+                            });
+                            let step = Duration::from_secs(5);
+                            let res = tokio::time::timeout(Duration::from_secs(30), async {
+                                let mut connection = fe2o3_amqp::Connection::builder().container_id("client").open_with_stream(client_io).await.map_err(|_| "open_failed")?;
+                                let mut session = fe2o3_amqp::Session::begin(&mut connection).await.map_err(|_| "begin_failed")?;
+                                let controller = Controller::attach(&mut session, "controller").await.map_err(|_| "controller_failed")?;
+                                let mut sender = fe2o3_amqp::Sender::attach(&mut session, "sender", "q1").await.map_err(|_| "sender_failed")?;
+                                let txn = tokio::time::timeout(step, Transaction::declare(&controller, None)).await.map_err(|_| "declare_timeout")?.map_err(|_| "declare_failed")?;
+                                for (k, body) in ["m1", "m2", "m3", "m4"].iter().enumerate() {
+                                    let sendable = fe2o3_amqp::Sendable::builder().message(body.to_string()).settled(k % 2 == 1).build();
+                                    tokio::time::timeout(step, txn.post(&mut sender, sendable)).await.map_err(|_| "post_timeout")?.map_err(|_| "post_failed")?;
+                                }
+                                let visible_before = matches!(tokio::time::timeout(Duration::from_millis(400), seen.recv()).await, Ok(Some(_)));
+                                tokio::time::timeout(step, txn.commit()).await.map_err(|_| "commit_timeout")?.map_err(|_| "commit_failed")?;
+                                let mut got = Vec::new();
+                                while got.len() < 4 {
+                                    match tokio::time::timeout(Duration::from_millis(1500), seen.recv()).await {
+                                        Ok(Some(b)) => got.push(b),
+                                        _ => break,
+                                    }
+                                }
+                                let _ = tokio::time::timeout(Duration::from_secs(1), sender.close()).await;
+                                let _ = tokio::time::timeout(Duration::from_secs(1), controller.close()).await;
+                                let _ = tokio::time::timeout(Duration::from_secs(1), session.end()).await;
+                                let _ = tokio::time::timeout(Duration::from_secs(1), connection.close()).await;
+                                Ok::<_, &'static str>((visible_before, got))
+                            })
+                            .await
+                            .unwrap_or(Err("hang"));
+                            listener.abort();
+                            match res {
+                                Ok((vb, got)) => format!("{{\"client\":\"ok\",\"visible_before_commit\":{},\"delivered\":{}}}", vb, sp::json_list(&got)),
+                                Err(e) => format!("{{\"client\":\"{}\",\"visible_before_commit\":false,\"delivered\":[]}}", e),
+                            }
+                        }
+                        // window_reopen_with_echo: the peer begins with incoming-window 1; the client sends three pre-settled
+                        //   messages (two are held back); after the first transfer the peer reopens its window with a LINK flow
+                        //   carrying echo=true. All three transfers must arrive.
+                        "window_reopen_with_echo" => {
+                            use fe2o3_amqp_types::performatives::Flow;
+                            let mut reopened = false;
+                            let peer = tokio::spawn(sp::run(peer_io, sp::PeerCfg::default(), move |f: &Frame, _log: &[String]| {
+                                let mut act = sp::Act::default();
+                                match &f.body {
+                                    FrameBody::Begin(b) => {
+                                        let mut b = b.clone();
+                                        b.remote_channel = Some(f.channel);
+                                        b.incoming_window = 1;
+                                        act.replies.push(Frame::new(f.channel, FrameBody::Begin(b)));
+                                        act.handled = true;
+                                    }
+                                    FrameBody::Transfer { performative, .. } if !reopened => {
+                                        reopened = true;
+                                        act.replies.push(Frame::new(f.channel, FrameBody::Flow(Flow { next_incoming_id: Some(1), incoming_window: 10, next_outgoing_id: 0, outgoing_window: 2048, handle: Some(performative.handle.clone()), delivery_count: Some(1), link_credit: Some(100), available: None, drain: false, echo: true, properties: None })));
+                                    }
+                                    _ => {}
+                                }
+                                act
+                            }));
+                            let client = tokio::time::timeout(Duration::from_secs(8), async {
+                                let mut conn = fe2o3_amqp::Connection::builder().container_id("client").open_with_stream(client_io).await.map_err(|_| "open_failed")?;
+                                let mut session = fe2o3_amqp::Session::begin(&mut conn).await.map_err(|_| "begin_failed")?;
+                                let mut sender = fe2o3_amqp::Sender::attach(&mut session, "s-1", "q1").await.map_err(|_| "attach_failed")?;
+                                for k in 0..3 {
+                                    let m = fe2o3_amqp::Sendable::builder().message(format!("m{}", k)).settled(true).build();
+                                    let _ = tokio::time::timeout(Duration::from_secs(2), sender.send(m)).await.map_err(|_| "send_timeout")?;
+                                }
+                                tokio::time::sleep(Duration::from_millis(500)).await;
+                                let _ = tokio::time::timeout(Duration::from_secs(1), sender.close()).await;
+                                let _ = tokio::time::timeout(Duration::from_secs(1), session.end()).await;
+                                let _ = tokio::time::timeout(Duration::from_secs(1), conn.close()).await;
+                                Ok::<_, &'static str>("ok")
+                            })
+                            .await
+                            .unwrap_or(Err("hang"));
+                            let log = tokio::time::timeout(Duration::from_secs(2), peer).await.ok().and_then(|r| r.ok()).unwrap_or_default();
+                            let i_det = log.iter().position(|l| l.starts_with("detach:")).unwrap_or(log.len());
+                            let n = log[..i_det].iter().filter(|l| l.starts_with("transfer:")).count();
+                            format!("{{\"client\":\"{}\",\"transfers_seen\":{},\"log\":{}}}", client.unwrap_or_else(|e| e), n, sp::json_list(&log))
+                        }
+                        // cancel_recv_multi_frame: the peer sends one delivery in two transfer frames, 250 ms apart; the
+                        //   application polls recv() under a 20 ms time-out (dropping the pending future each time) and must in
+                        //   the end receive the delivery, whole, once, with no error.
+                        "cancel_recv_multi_frame" => {
+                            use fe2o3_amqp_types::definitions::Handle;
+                            use fe2o3_amqp_types::performatives::Transfer;
+                            use fe2o3_amqp_types::primitives::Binary;
+                            fn xfer(ch: u16, handle: Handle, first: bool, body: Vec<u8>) -> Frame {
+                                let performative = Transfer { handle, delivery_id: if first { Some(0) } else { None }, delivery_tag: if first { Some(Binary::from(vec![0u8, 0, 0, 0])) } else { None }, message_format: if first { Some(0) } else { None }, settled: if first { Some(true) } else { None }, more: first, rcv_settle_mode: None, state: None, resume: false, aborted: false, batchable: false };
+                                Frame::new(ch, FrameBody::Transfer { performative, payload: Bytes::from(body) })
+                            }
+                            let mut sent = false;
+                            let peer = tokio::spawn(sp::run(peer_io, sp::PeerCfg::default(), move |f: &Frame, _log: &[String]| {
+                                let mut act = sp::Act::default();
+                                if let FrameBody::Flow(fl) = &f.body {
+                                    if let (Some(h), false) = (fl.handle.clone(), sent) {
+                                        sent = true;
+                                        // amqp-value section holding the 8-byte binary 01..08, cut in the middle
+                                        act.replies.push(xfer(f.channel, h.clone(), true, vec![0x00, 0x53, 0x77, 0xa0, 0x08, 1, 2, 3]));
+                                        act.pause_ms = 250;
+                                        act.late_replies.push(xfer(f.channel, h, false, vec![4, 5, 6, 7, 8]));
+                                    }
+                                }
+                                act
+                            }));
+                            let client = tokio::time::timeout(Duration::from_secs(8), async {
+                                let mut conn = fe2o3_amqp::Connection::builder().container_id("client").open_with_stream(client_io).await.map_err(|_| "open_failed".to_string())?;
+                                let mut session = fe2o3_amqp::Session::begin(&mut conn).await.map_err(|_| "begin_failed".to_string())?;
+                                let mut receiver = fe2o3_amqp::Receiver::attach(&mut session, "r-1", "q1").await.map_err(|_| "attach_failed".to_string())?;
+                                let mut dropped = 0u32;
+                                let mut errors = 0u32;
+                                let mut got: Vec<Vec<u8>> = Vec::new();
+                                let t0 = std::time::Instant::now();
+                                while t0.elapsed() < Duration::from_millis(1500) && got.is_empty() && errors == 0 {
+                                    match tokio::time::timeout(Duration::from_millis(20), receiver.recv::<serde_bytes::ByteBuf>()).await {
+                                        Ok(Ok(d)) => got.push(d.body().to_vec()),
+                                        Ok(Err(_)) => errors += 1,
+                                        Err(_) => dropped += 1,
+                                    }
+                                }
+                                std::mem::forget(receiver);
+                                let _ = tokio::time::timeout(Duration::from_secs(1), session.end()).await;
+                                let _ = tokio::time::timeout(Duration::from_secs(1), conn.close()).await;
+                                Ok::<_, String>((got, dropped, errors))
+                            })
+                            .await
+                            .unwrap_or(Err("hang".to_string()));
+                            peer.abort();
+                            match client {
+                                Ok((got, dropped, errors)) => {
+                                    let intact = got.len() == 1 && got[0] == vec![1u8, 2, 3, 4, 5, 6, 7, 8];
+                                    format!("{{\"client\":\"ok\",\"received\":{},\"intact\":{},\"lost\":{},\"errors\":{},\"recv_futures_dropped\":{}}}", got.len(), intact, if intact { 0 } else { 1 }, errors, dropped)
+                                }
+                                Err(e) => format!("{{\"client\":\"{}\",\"lost\":0,\"errors\":0}}", e),
+                            }
                         }
                         _ => "{\"error\":\"unknown scenario\"}".to_string(),
                     }
